@@ -24,6 +24,7 @@ macro_rules! dispatch {
             "C12" => $f(&props::c12::C12, $($arg),*),
             "C13" => $f(&props::c13::C13, $($arg),*),
             "C14" => $f(&props::c14::C14, $($arg),*),
+            "C15" => $f(&props::c15::C15, $($arg),*),
             _ => { eprintln!("unknown property {}", $id); 2 }
         }
     };
